@@ -105,7 +105,7 @@ var hangSeconds = func() time.Duration {
 			return time.Duration(n)
 		}
 	}
-	return 25
+	return 40
 }()
 
 // cpuSeconds returns the CPU time (user+system) this process has consumed.
